@@ -320,12 +320,38 @@ class ExecutionState:
                         OperationStatus.TIMED_OUT,
                     }
                 }
-                if completed_ops.issubset(self._visited_operations):
+                # Operations inside a completed context are never visited again: the context
+                # returns its recorded result without running its body (unless its children
+                # are replayed because the result was too large to be recorded).
+                unvisited = {
+                    op_id
+                    for op_id in completed_ops - self._visited_operations
+                    if not self._is_inside_completed_context(op_id, completed_ops)
+                }
+                if not unvisited:
                     logger.debug(
                         "Transitioning from REPLAY to NEW status at operation %s",
                         operation_id,
                     )
                     self._replay_status = ReplayStatus.NEW
+
+    def _is_inside_completed_context(
+        self, operation_id: str, completed_ops: set[str]
+    ) -> bool:
+        """True if an ancestor context of the operation completed and is not replayed through its children."""
+        seen: set[str] = set()
+        current = self.operations.get(operation_id)
+        while current is not None and current.parent_id and current.parent_id not in seen:
+            seen.add(current.parent_id)
+            parent = self.operations.get(current.parent_id)
+            if parent is None:
+                return False
+            if parent.operation_id in completed_ops and not (
+                parent.context_details and parent.context_details.replay_children
+            ):
+                return True
+            current = parent
+        return False
 
     def is_replaying(self) -> bool:
         """Check if execution is currently in replay mode.
